@@ -9,7 +9,7 @@ From Verif Require Import Base.CaseCheck Dlq.Window.
 
 Inductive ev := DlqOk (k : nat) | SrcAck (k : nat).
 
-Definition rec := (bool * bool)%type.          (* (is_nack, dlq_write_fails) *)
+Notation rec := (bool * bool)%type (only parsing).          (* (is_nack, dlq_write_fails) *)
 
 (* terminal state of the pass: None = still running, Some fatal = stopped with an error *)
 Definition term := option bool.
